@@ -384,11 +384,26 @@ def run_standard(case):
             return res
         lg.define_experiment("e", "a", None)
         i = case["interval"]
-        lg.define_checkpoint_frequency("q", i)
         variant = case["seed"] % 2
         model = _tiny_model(variant)
         saved = []
         n_q = 0
+        # the interval may be defined after epochs of that key were recorded;
+        # "every interval-th recorded epoch" counts all of them
+        n_early = int(rng.integers(0, 4)) if case["seed"] % 3 == 0 else 0
+        for _ in range(n_early):
+            ok, _r = guarded(res, "C20/raises/record_epoch", lg.record_epoch, "q",
+                             model)
+            if not ok:
+                return res
+            n_q += 1
+        if n_early and len(lg.checkpoint_path.get("q", [])):
+            res.violation("C20/standard/undefined_key_saved",
+                          "checkpoint written before an interval was defined")
+            return res
+        lg.define_checkpoint_frequency("q", i)
+        if n_early:
+            res.see("standard_interval_defined_late")
         for k in range(1, case["n"] + 1):
             if rng.random() < 0.25:
                 n0 = sum(len(v) for v in lg.checkpoint_path.values())
